@@ -2,7 +2,8 @@
    agree on every header, never panic when the header has the length streamHeaderSize says,
    the sums do not wrap, the segments returned are consecutive slices of the data;
    Unmarshal never panics and allocates at most 6 bytes per input byte. *)
-From CV Require Import Frame.Frame Frame.FrameProofs.
+From CV Require Import Frame.Frame.
+From CV Require Import Frame.FrameProofs.
 From Coq Require Import ZifyBool ZifyNat.
 Ltac Zify.zify_post_hook ::= Z.div_mod_to_equations.
 Open Scope Z_scope.
